@@ -164,6 +164,37 @@ def response_receiver(p: Project, f: Func, e) -> Optional[bool]:
         g = g.parent
     if e.id == 'resp':
         return True
+    # a local bound only to a fresh instance: `<ResponseClass>(...)`, or `self.<attr>(...)` where the class declares
+    # `<attr>: Type[<ResponseClass>]` (App._response_type) - whatever the local is called
+    ds = Defs(f).defs.get(e.id, [])
+    if ds and all(d[0] == 'assign' and isinstance(strip_await(d[1]), ast.Call) for d in ds):
+        verdicts = []
+        for d in ds:
+            fn = strip_await(d[1]).func
+            q = resolve_alias(p, f.module, fn, f)
+            if q and q in p.classes:
+                verdicts.append(is_response_class(p, q))
+                continue
+            own = func_owner_class(f)
+            v = None
+            if own is not None and isinstance(fn, ast.Attribute) and isinstance(fn.value, ast.Name) and fn.value.id == 'self':
+                for cq in p.mro(own.qual):
+                    c = p.classes.get(cq)
+                    for st in (c.node.body if c is not None else []):
+                        if isinstance(st, ast.AnnAssign) and isinstance(st.target, ast.Name) and st.target.id == fn.attr:
+                            ann = st.annotation
+                            if isinstance(ann, ast.Subscript) and isinstance(ann.value, (ast.Name, ast.Attribute)) \
+                                    and (getattr(ann.value, 'id', None) or getattr(ann.value, 'attr', None)) in ('Type', 'type'):
+                                qq = resolve_alias(p, c.module, ann.slice, None)
+                                if qq and qq in p.classes:
+                                    v = is_response_class(p, qq)
+                    if v is not None:
+                        break
+            verdicts.append(v)
+        if verdicts and all(v is True for v in verdicts):
+            return True
+        if verdicts and all(v is False for v in verdicts):
+            return False
     return None
 
 
@@ -193,11 +224,16 @@ def store_exprs(p: Project, f: Func, attr: str):
     def is_attr(e) -> bool:
         return isinstance(e, ast.Attribute) and e.attr == attr and response_receiver(p, f, e.value) is True
 
+    # `jar = self._cookies = SimpleCookie()`: a chained assignment that also targets the attribute binds the local to it
+    chained = set()
+    for n in walk_no_nested(f.node):
+        if isinstance(n, ast.Assign) and len(n.targets) > 1 and any(is_attr(t) for t in n.targets):
+            chained |= {id(t) for t in n.targets if isinstance(t, ast.Name)}
     aliases = set()
     for name, ds in defs.defs.items():
         if name in defs.params:
             continue
-        if ds and all(d[0] == 'assign' and is_attr(strip_await(d[1])) for d in ds):
+        if ds and all(d[0] == 'assign' and (is_attr(strip_await(d[1])) or id(d[-1]) in chained) for d in ds):
             aliases.add(name)
 
     def denotes(e) -> bool:
@@ -352,19 +388,46 @@ def _value_case(p, f, value, at_node, seen, name):
 
 
 def key_helper(p: Project, f: Func, call) -> Optional[Func]:
-    """The module-level, synchronous, undecorated function of the analysed package that `call` invokes with plain
-    positional/keyword arguments (the shape a "normalise this header name" helper has), or None."""
+    """The synchronous helper of the analysed package that `call` invokes with plain positional/keyword arguments - a
+    module-level function, or a method of the caller's own class family reached through self/cls (plain, static or class
+    method) - i.e. the shapes a "normalise / vet this header name" helper has; None for anything else."""
     call = strip_await(call)
     if not isinstance(call, ast.Call) or any(isinstance(a, ast.Starred) for a in call.args) or any(k.arg is None for k in call.keywords):
         return None
     g = p.callee(f, call)
-    if not isinstance(g, Func) or g.cls is not None or g.parent is not None or g.is_async or g.decorators:
+    if not isinstance(g, Func) or g.parent is not None or g.is_async:
+        return None
+    if g.cls is not None:
+        own = func_owner_class(f)
+        if own is None or not (own.qual == g.cls.qual or p.is_subclass(own.qual, g.cls.qual) is True):
+            return None
+        if not (isinstance(call.func, ast.Attribute) and isinstance(call.func.value, ast.Name) and call.func.value.id in ('self', 'cls')):
+            return None
+        if any(d not in ('staticmethod', 'classmethod') for d in g.decorators):
+            return None
+    elif g.decorators:
         return None
     if g.node.args.vararg or g.node.args.kwarg:
         return None
     if any(isinstance(n, (ast.Yield, ast.YieldFrom)) for n in walk_no_nested(g.node)):
         return None
     return g
+
+
+def bound_args(g: Func, call: ast.Call) -> Dict[str, ast.AST]:
+    """parameter of the helper `g` -> argument expression of `call` (a call accepted by key_helper)."""
+    a = g.node.args
+    pos = [x.arg for x in a.posonlyargs + a.args]
+    if g.cls is not None and 'staticmethod' not in g.decorators and pos:
+        pos = pos[1:]          # self / cls is bound by the receiver
+    out: Dict[str, ast.AST] = {}
+    for i, x in enumerate(call.args):
+        if i < len(pos):
+            out[pos[i]] = x
+    for k in call.keywords:
+        if k.arg is not None:
+            out[k.arg] = k.value
+    return out
 
 
 def helper_returns(p: Project, g: Func) -> List[Tuple[int, ast.AST]]:
